@@ -498,3 +498,36 @@ func c10Counters(N int) {
 
 func H_c10_counters_q() { c10Counters(4) }
 func H_c10_counters_t() { c10Counters(5) }
+
+// c10GirthOnly: Girth on every labelled graph of order exactly n, dense, plus the
+// two relabelling generators (the BFS state that leaks between roots depends on the labelling).
+func c10GirthOnly(n int) {
+	adj := vgAdj(n, vgBits(n))
+	want := c10Girth(adj)
+	rt.Check(Girth(vgDense(adj)) == want, "Girth wrong")
+	for _, tau := range c09Taus(n) {
+		rt.Check(Girth(vgDense(vgRelabel(adj, tau))) == want, "Girth changes under relabelling")
+	}
+	rt.Reach("end")
+}
+
+func H_c10_girth6_q() { c10GirthOnly(6) }
+func H_c10_girth7sparse_t() {
+	// n = 7 with at most 8 edges (solver-pruned family)
+	n := 7
+	bits := make([]byte, n*(n-1)/2)
+	cnt := byte(0)
+	for k := range bits {
+		bits[k] = rt.Bit("e")
+		cnt += bits[k]
+	}
+	rt.Assume(cnt <= 8)
+	for k := range bits {
+		bits[k] = rt.ConcreteByte(bits[k])
+	}
+	adj := vgAdj(n, bits)
+	want := c10Girth(adj)
+	rt.Check(Girth(vgDense(adj)) == want, "Girth wrong")
+	rt.Check(Girth(vgSparse(adj)) == want, "Girth wrong (sparse)")
+	rt.Reach("end")
+}
